@@ -73,7 +73,7 @@ def realize(a, ids, style="constructor"):
     """style = "constructor": resolvers are passed to Field(...);  "registered": the schema is built without resolvers and they are
     attached afterwards through register_resolver / register_subscription (which also fills the schema's resolver registry)."""
     from py_gql.schema import (ID, Argument, Boolean, Directive, EnumType, EnumValue, Field, Float, InputField, InputObjectType, Int,
-                               InterfaceType, ListType, NonNullType, ObjectType, Schema, String, UnionType)
+                               InterfaceType, ListType, NonNullType, ObjectType, ScalarType, Schema, String, UnionType)
     builtin = {"Int": Int, "Float": Float, "String": String, "Boolean": Boolean, "ID": ID}
     reg = {}
     camel = a["camel"]
@@ -95,7 +95,9 @@ def realize(a, ids, style="constructor"):
                               python_name=f["py"] or None) for f in t["fields"]]
     for t in a["types"]:
         k, n = t["k"], t["name"]
-        if k == "enum":
+        if k == "scalar":
+            reg[n] = ScalarType(n, serialize=str, parse=str)
+        elif k == "enum":
             reg[n] = EnumType(n, [EnumValue(v["name"], deprecation_reason=v["dep"] or None) for v in t["values"]], description=t["desc"] or None)
         elif k == "input":
             reg[n] = InputObjectType(n, (lambda t=t: args(t["fields"], InputField)), description=t["desc"] or None)
